@@ -625,7 +625,8 @@ impl<'a> Searcher<'a> {
 
         // Prevents infinite loops when following symlinks: every real directory is
         // traversed once, whichever way it is reached
-        let canonical_dir = PathBuf::from(canonical_path.unwrap());
+        // (the path itself, not its display text: names that are no valid Unicode stay distinct)
+        let canonical_dir = fs::canonicalize(dir).unwrap_or_else(|_| PathBuf::from(canonical_path.unwrap()));
         if self.current_follow_symlinks && !self.visited_dirs.insert(canonical_dir.clone()) {
             return Ok(());
         }
@@ -703,7 +704,9 @@ impl<'a> Searcher<'a> {
                                                         break;
                                                     }
 
-                                                    if let Ok(afile) = archive.by_index(i) {
+                                                    // only the member's description is needed: a member that cannot be
+                                                    // unpacked here (encrypted, unsupported method) is still a member
+                                                    if let Ok(afile) = archive.by_index_raw(i) {
                                                         let file_info = to_file_info(&afile);
                                                         let checked = self
                                                             .check_file(&entry, &Some(file_info))?;
@@ -836,11 +839,15 @@ impl<'a> Searcher<'a> {
 
     #[cfg(unix)]
     fn ok_to_visit_dir(&mut self, entry: &DirEntry, file_type: FileType) -> bool {
-        let ino = entry.ino();
-        if self.visited_inodes.contains(&ino) {
-            return false;
-        } else {
-            self.visited_inodes.insert(ino);
+        // a link has an inode of its own (and may have several names): where it leads to is
+        // what counts, and that is remembered by `visited_dirs`
+        if !file_type.is_symlink() {
+            let ino = entry.ino();
+            if self.visited_inodes.contains(&ino) {
+                return false;
+            } else {
+                self.visited_inodes.insert(ino);
+            }
         }
 
         match self.current_follow_symlinks {
